@@ -27,6 +27,7 @@ import (
 // same raw key is a collision (C17:key-collision:...), a raw key that does not start with ST_STORAGE ‖ contract is
 // a confinement failure.
 type keysFam struct {
+	store   *leveldbstore.LevelDBStore
 	overlay *overlaydb.OverlayDB
 	cache   *storage.CacheDB
 	owner   map[string]string // raw key -> label \x00 field list
@@ -36,10 +37,14 @@ type keysFam struct {
 func init() { families["keys"] = func() hx.Family { return &keysFam{} } }
 
 func (f *keysFam) Reset(r *hx.Run) {
+	if f.store != nil {
+		f.store.Close()
+	}
 	store, err := leveldbstore.NewMemLevelDBStore()
 	if err != nil {
 		panic(err)
 	}
+	f.store = store
 	f.overlay = overlaydb.NewOverlayDB(store)
 	f.cache = storage.NewCacheDB(f.overlay)
 	f.owner = map[string]string{}
